@@ -37,9 +37,13 @@ def run(ctx):
                      'found', 'expected exactly one bin function with a parallel reduction, found %d' % len(pfs),
                      'anchor-lost'):
         return
-    b = pfs[0]
-    rep.saw(b)
-    tr = Tracer(b)
+    from ..nest import Nest
+    rep.saw(pfs[0])
+    # nest form (pk/loopform.py): helpers unknown to the reference tree are spliced in, and the parallel reduction reads
+    # `for index in range { candidate(stages(index)) }; max(..)` with the map closures spliced into the loop body
+    nst = Nest(f, pfs[0], yields=False)
+    b = nst.b
+    tr = nst.tr
     # ---- R1 selection ----------------------------------------------------------------
     ser = [(bi, t) for bi, t in b.calls() if call_matches(t, 'serde_json::to_string', 'serde_json::to_writer',
                                                            'serde_json::to_string_pretty', 'serde_json::to_vec')]
@@ -67,23 +71,31 @@ def run(ctx):
               'the serialised value is not the result of ParallelIterator::max over the replicas (it comes from %s)'
               % (callee_name(red['term']) if red['o'] == 'call' else red['o']))
     if is_max:
-        src, chain = adaptor_chain(tr, red['term']['args'][0])
-        names = [c[0] for c in chain]
-        okc = all(n in ('map', 'into_par_iter') for n in names) and names.count('map') >= 1
+        cands = nst.calls(lambda tt: tt['func'].get('fn') == 'pk::candidate')
+        loops = nst.loops_around(cands[0][0]) if len(cands) == 1 else []
+        lp = loops[0] if len(loops) == 1 else None
+        from ..lineage import significant
+        okc = lp is not None and not significant(lp['chain']) and nst.every_iteration_reaches(lp, cands[0][0])
+        if okc:
+            # the reduction consumes the iterator the loop ranges over
+            ro = tr.origin(red['term']['args'][0])
+            okc = ro.get('l') == lp['iter_local'] or tr.origin({'k': 'copy', 'l': lp['iter_local'], 'p': []}).get('l') == ro.get('l')
         rep.check(okc, 'R1', 'reduction-over-all-stage-outputs', where(b, red['bb']),
-                  'max over the adaptor chain %s' % list(reversed(names)),
-                  'the reduction input passes through an adaptor that can drop or reorder replicas: %s' % names)
-        rep.floor('R1', 'parallel map stages', names.count('map'), 3, where(b))
-        # empty reduction -> Err, not unwrap
-        oe, st = through(tr, ser[0][1]['args'][0])
+                  'max over one candidate per replica index (fused: %s)' % (b.fused,),
+                  'the reduction input passes through an adaptor that can drop or reorder replicas, or a replica does not always '
+                  'produce a candidate: %s' % ([d['chain'] for d in loops],))
+        body = lp['loop']['body'] if lp is not None else set()
+        nstage = len([1 for bi, tt in b.calls() if bi in body and call_matches(tt, 'optimise_state')])
+        rep.floor('R1', 'optimisation stages in the replica pipeline', nstage, 3, where(b))
+        # empty set of replicas: None -> Err, not a panic
         allsteps = steps + steps2
         rep.check(any('ok_or' in s for s in allsteps) and not any(s.endswith(('unwrap', 'expect')) for s in allsteps),
                   'R1', 'empty-reduction-is-an-error', where(b, red['bb']),
                   'None from max is mapped to Err by ok_or_else and propagated with ?',
                   'the result of max is unwrapped: zero replications would panic')
-        # R6: the range end is the count parameter; closures do not capture it
-        rng = src
+        # R6: the range end is the count parameter; a replica does not depend on it
         cnt_local = None
+        rng = lp['src'] if lp is not None else {'o': '?'}
         if rng['o'] == 'rvalue' and rng['rv']['r'] == 'aggr' and 'Range' in rng['rv'].get('adt', ''):
             lo, hi = rng['rv']['ops']
             oh = tr.origin(hi)
@@ -94,20 +106,20 @@ def run(ctx):
                       'the replica index range is not 0..count')
         else:
             rep.fail('R6', 'replica-range', where(b), 'cannot recognise the replica index range', 'undecidable-shape')
-        ncl = 0
-        for nm, t, bi in chain:
-            if nm != 'map':
+        from .common import places_in_body
+        bad = []
+        nuse = 0
+        for bi, si, pl, wr in places_in_body(b):
+            if bi not in body or bi == (lp or {}).get('header'):
                 continue
-            co = tr.origin(t['args'][1])
-            if co['o'] == 'rvalue' and co['rv'].get('agg') == 'closure':
-                ncl += 1
-                caps = [tr.origin(x) for x in co['rv']['ops']]
-                bad = [c for c in caps if c.get('l') == cnt_local]
-                rep.check(not bad, 'R6', 'closure-does-not-capture-count:%s' % co['rv']['closure'], where(b, bi),
-                          'captures %s' % [b.local_name(c.get('l')) for c in caps],
-                          'a replica closure captures the replication count: replica i is no longer the same computation '
-                          'for every count > i')
-        rep.floor('R6', 'replica closures inspected', ncl, 3, where(b))
+            nuse += 1
+            o = tr.origin(dict(pl, k='copy')) if not wr else {'o': '?'}
+            if cnt_local is not None and o['o'] == 'arg' and o['l'] == cnt_local:
+                bad.append(bi)
+        rep.check(not bad, 'R6', 'replica-does-not-use-count', where(b, bad[0]) if bad else where(b),
+                  'no value inside the replica loop derives from the replication count',
+                  'a replica reads the replication count: replica i is no longer the same computation for every count > i')
+        rep.floor('R6', 'places inspected in the replica loop', nuse, 20, where(b))
     # ---- R3 one object ---------------------------------------------------------------
     if final_l is not None:
         nm = b.local_name(final_l)
